@@ -47,23 +47,26 @@ SIGMA_STAR = star(ANY)
 
 # ------------------------------------------------------------ lexer regexes
 def lexer_patterns(model: Model) -> Dict[str, str]:
-    """Module-level `NAME = re.compile(<literal>)` constants of the lexer."""
+    """Module-level regex constants of the lexer: every name bound to `re.compile(<constant expression>)`.
+
+    The pattern expression is evaluated by the interpreter (constant folding only), so implicit concatenation,
+    `+`, f-strings and shared module-level fragments are all fine."""
+    from ..absctx import Ctx
+
     lex = model.module("lex")
     out: Dict[str, str] = {}
+    it = Interp(model, Ctx([]))
     for name, expr in lex.assigns.items():
-        if isinstance(expr, ast.Call) and ast.unparse(expr.func) in ("re.compile", "regex.compile") and expr.args:
-            try:
-                pat = ast.literal_eval(expr.args[0])
-            except Exception:  # noqa: BLE001
-                # implicit concatenation of raw strings is still a constant expression
-                try:
-                    pat = eval(compile(ast.Expression(expr.args[0]), "<pattern>", "eval"), {"__builtins__": {}})  # noqa: S307 - constant folding of a literal
-                except Exception:  # noqa: BLE001
-                    continue
-            if isinstance(pat, str):
-                if len(expr.args) > 1 or expr.keywords:
-                    raise AnalysisError(f"lex.{name}: regex flags are not modelled")
-                out[name] = pat
+        if not (isinstance(expr, ast.Call) and ast.unparse(expr.func) in ("re.compile", "regex.compile") and expr.args):
+            continue
+        try:
+            v = it.module_global(lex, name)
+        except (Unsupported, AnalysisError):
+            continue
+        if isinstance(v, Term) and v.op == "re.compile" and v.args and isinstance(v.args[0], Const) and isinstance(v.args[0].value, str):
+            if len(expr.args) > 1 or expr.keywords:
+                raise AnalysisError(f"lex.{name}: regex flags are not modelled")
+            out[name] = v.args[0].value
     return out
 
 
